@@ -159,7 +159,7 @@ def search(ctx, n_theta, n_pts):
     return found
 
 
-def run(ctx):
+def _run(ctx):
     quick = ctx.tier == 'quick'
     status = biv.generate(ctx)
     needed = [p.format(f=f) for f in FAMS for p in NEEDED] + ['bivariate_log_probability_density']
@@ -183,3 +183,16 @@ def run(ctx):
     ctx.extra['witness_search_hits'] = search(ctx, 6 if quick else 40, 300 if quick else 3000)
     ctx.assumptions += ['IEEE overflow guards (Clayton (A == inf).any()) are constant-false in the real-number model; claimed on [1e-4,1-1e-4]^2 only',
                         'the base-class finite-difference fallback partial_derivative is not used by any family and is not modelled']
+
+
+def run(ctx):
+    """the check proper, then the history / memory-layout oracles on the real classes (always, also after a broken translation)"""
+    from .. import extra_oracles
+    try:
+        _run(ctx)
+    finally:
+        try:
+            extra_oracles.biv_extra(ctx, 'C07')
+        except Exception as ex:       # the oracle itself must never hide the result of the check proper
+            ctx.obligation('oracle:extra:raised', False, 'correspondence', repr(ex))
+            ctx.violation('oracle:extra:raised:' + type(ex).__name__, 'history/layout oracle raised ' + repr(ex), {'repro': '# see tools/vf/extra_oracles.py'})
